@@ -264,6 +264,12 @@ for _fam, _t, _what in (
                 f"do not fit into the 1000-frame stack",
                 [{"kind": "family", "family": _fam, "cycle": 1, "wrappers": _w, "async": False, "must_cut": True, "tags": ["render"]}] if _l in (6, 12, 2, 4, 9) else [])
 
+add("C09", "open", "RecursionError-while-parsing:expression-nested-or-chained-150-or-more-levels",
+    "the expression parsers are recursive without a depth limit (block_nesting_limit only covers block tags): parentheses or bracketed paths nested a few hundred levels deep, a chain of a "
+    "few hundred `not`s, or one condition with several hundred and/or terms (grouped from the right) "
+    "('{% if (((...a...))) %}', '{{ a[b[b[...]]] }}') exhaust the interpreter's stack; from_string re-labels the RecursionError as LiquidError('unexpected liquid parsing error')",
+    [{"kind": "parse", "source": "{{ a" + "[b" * 400 + "]" * 400 + " }}", "mode": "strict"}, {"kind": "parse", "source": "{% if " + "(" * 400 + "a" + ")" * 400 + " %}x{% endif %}", "mode": "lax"}])
+
 if __name__ == "__main__":
     # further entries are appended by tools/mkfindings.py from triaged replay files and kept in findings_extra.json
     extra_path = os.path.join(VERIF, "tools", "findings_extra.json")
